@@ -5,101 +5,80 @@
 2. B1: a transition tour of every dumped graph (every edge of the model) is replayed step by step
    into the REAL IoUring methods over harness memory (hook H5) whose counters start at 2^32-H+m, in
    a debug (overflow checks) and a release build; every step is compared with the model.
-   Larger configurations: `tlc -simulate` behaviours (RingGen.tla), edge coverage measured.
+   Larger configurations: `tlc -simulate` behaviours (RingGen.tla), visited model edges counted.
 3. B2: every run - toured, simulated, seeded random - is judged by TLC against the property-level
    trace specification RingTrace.tla.  Only this produces verdicts.
 """
+import concurrent.futures as cf
 import json
 import os
 import re
+import time
 
 from vlib import core
 from checks import ring_common as R
 
-# (name, ns, nc, h, side, atomic) ; invariants chosen by side
-QUICK_TOURS = [("sq1", 1, 1, 4, "sq"), ("cq1", 1, 1, 4, "cq"), ("sq2", 2, 2, 8, "sq"), ("cq2", 2, 2, 8, "cq"),
-               ("sq4", 4, 4, 8, "sq"), ("cq4", 4, 4, 8, "cq"), ("both1", 1, 2, 4, "both")]
-THOROUGH_TOURS = QUICK_TOURS + [("cq8", 8, 8, 16, "cq"), ("sq8", 8, 8, 16, "sq"), ("both2", 2, 2, 4, "both"),
-                                ("cq2x4", 2, 4, 8, "cq")]
-FLAG_SETS = {"quick": [0, (1 << 1) | (1 << 10) | (1 << 11)], "thorough": [0, 1 << 1, 1 << 10, 1 << 11, (1 << 1) | (1 << 10) | (1 << 11)]}
+# (name, ns, nc, h, side, atomic reap+read)
+QUICK_TOURS = [("sq1", 1, 1, 4, "sq", False), ("cq1", 1, 1, 4, "cq", False), ("sq2", 2, 2, 8, "sq", False),
+               ("cq2", 2, 2, 8, "cq", False), ("sq4", 4, 4, 8, "sq", False), ("cq4", 4, 4, 8, "cq", False),
+               ("cq4a", 4, 4, 8, "cq", True), ("cq2x4a", 2, 4, 8, "cq", True), ("both0", 1, 1, 2, "both", False)]
+THOROUGH_TOURS = QUICK_TOURS + [("cq8", 8, 8, 16, "cq", False), ("cq8a", 8, 8, 16, "cq", True), ("sq8", 8, 8, 16, "sq", False),
+                                ("both1", 1, 2, 4, "both", False), ("both2a", 2, 2, 4, "both", True), ("cq2x4", 2, 4, 8, "cq", False)]
+SQPOLL, SQE128, CQE32 = 1 << 1, 1 << 10, 1 << 11
+FLAG_SETS = {"quick": [0, SQPOLL | SQE128 | CQE32], "thorough": [0, SQPOLL, SQE128, CQE32, SQPOLL | SQE128 | CQE32]}
+STALE = "content_overwritten_between_return_and_read"
 
 
-def invariants_for(side):
-    # the completion side as coded releases the slot before the caller reads it: the one clause recorded
-    # as a known finding is excluded from the exhaustive run and confirmed separately (expected failure)
-    return ("TypeOK", "CountersConsistent", "PropertyHolds" if side == "sq" else "PropertyHoldsButStaleRead")
+def invariants_for(side, atomic):
+    # the completion side as coded releases the slot before the caller reads it: that one clause (a known
+    # finding) is excluded from the exhaustive runs with free interleaving and confirmed by an expected failure
+    return ("TypeOK", "CountersConsistent", "PropertyHolds" if side == "sq" or atomic else "PropertyHoldsButStaleRead")
 
 
-def mc_and_dump(chk, name, ns, nc, h, side, code=R.CODE_NOW, debug="TRUE", workers=8):
-    cfg = os.path.join(chk.work, "Ring_%s.cfg" % name)
+def mc_and_dump(work, name, ns, nc, h, side, atomic, workers):
+    cfg = os.path.join(work, "Ring_%s.cfg" % name)
     R.write_cfg(cfg, ns=ns, nc=nc, h=h, side=side, sq="AllStarts" if side != "cq" else "OneStart",
-                cq="AllStarts" if side != "sq" else "OneStart", wrapping=code["Wrapping"], debug=debug,
-                le=code["CqEmptyLE"], invariants=invariants_for(side))
-    dot = os.path.join(chk.work, "Ring_%s.dot" % name)
+                cq="AllStarts" if side != "sq" else "OneStart", wrapping=R.CODE_NOW["Wrapping"], debug="TRUE",
+                le=R.CODE_NOW["CqEmptyLE"], atomic="TRUE" if atomic else "FALSE", invariants=invariants_for(side, atomic))
+    dot = os.path.join(work, "Ring_%s.dot" % name)
     res = core.run_tlc("Ring_MC.tla", cfg, workers=workers, timeout=1500, dump=dot, xmx="6g")
     core.tlc_must_pass(res, "Ring_MC " + name)
-    chk.add_tlc(res)
-    return cfg, dot, res
+    g = R.Graph(dot)
+    os.unlink(dot)
+    if len(g.nodes) != res.distinct:
+        raise core.ToolError("dump of %s has %d nodes, TLC reported %d states" % (name, len(g.nodes), res.distinct))
+    paths = g.tour(maxlen=160 if ns >= 8 else 120)
+    return res, g, paths
 
 
-def expect_failure(chk, name, inv, what, **kw):
+def expect_failure(work, name, inv, what, **kw):
     """anti-vacuity / documentation runs: TLC MUST find a violation of `inv`"""
-    cfg = os.path.join(chk.work, "Ring_X_%s.cfg" % name)
+    cfg = os.path.join(work, "Ring_X_%s.cfg" % name)
     R.write_cfg(cfg, invariants=(inv,), **kw)
-    res = core.run_tlc("Ring_MC.tla", cfg, workers=4, timeout=600)
-    chk.add_tlc(res)
+    res = core.run_tlc("Ring_MC.tla", cfg, workers=2, timeout=600)
     if inv not in res.invariant_violated:
         raise core.ToolError("expected TLC to violate %s on %s (%s) but it did not:\n%s" % (inv, name, what, res.out[-1500:]))
     m = re.findall(r'why \|-> "(\w*)"', res.out)
-    return {"config": name, "invariant": inv, "shows": what, "clause": m[-1] if m else ""}
+    st = re.findall(r"stale \|-> (\w+)", res.out)
+    clause = (m[-1] if m else "") or (STALE if st and st[-1] == "TRUE" else "")
+    return res, {"config": name, "invariant": inv, "shows": what, "clause": clause}
 
 
-def replay_paths(chk, bindirs, plans, exps, tag, source):
-    """run the plans on the real code (each build), compare every step (B1), judge (B2)"""
-    ppath = os.path.join(chk.work, "plan_%s.ndjson" % tag)
-    core.write_ndjson(ppath, plans)
-    stats = {"runs": 0, "steps": 0, "divergent_runs": 0, "first_divergence": None, "rejected_runs": 0}
-    for build, bindir in bindirs.items():
-        runs = R.run_harness(bindir, ["plan", ppath])
-        if len(runs) != len(plans):
-            raise core.ToolError("harness returned %d runs for %d plans" % (len(runs), len(plans)))
-        bad = R.judge(chk, runs, "%s_%s" % (tag, build))
-        rejected = R.report(chk, runs, plans, bad, "%s/%s" % (source, build))
-        for k, (reset, evs) in enumerate(runs):
-            stats["runs"] += 1
-            div = None
-            for j, (op, arg, node) in enumerate(exps[k]):
-                ev = evs[j] if j < len(evs) else None
-                d = R.compare_step(op, arg, node, ev)
-                if d:
-                    div = (j, d)
-                    break
-                stats["steps"] += 1
-            if div:
-                stats["divergent_runs"] += 1
-                if stats["first_divergence"] is None:
-                    stats["first_divergence"] = {"build": build, "run": k, "step": div[0], "diff": div[1], "plan": plans[k],
-                                                 "also_rejected_by_property": k in rejected}
-            if k not in rejected:
-                chk.traces += 1
-        stats["rejected_runs"] += len(rejected)
-    return stats
-
-
-def simulate_paths(chk, name, ns, nc, h, num, depth, seed):
-    cfg = os.path.join(chk.work, "RingGen_%s.cfg" % name)
+def simulate_paths(work, name, ns, nc, h, atomic, num, depth, seed):
+    cfg = os.path.join(work, "RingGen_%s.cfg" % name)
     R.write_cfg(cfg, ns=ns, nc=nc, h=h, side="both", sq="NearWrap", cq="NearWrap", wrapping=R.CODE_NOW["Wrapping"],
-                le=R.CODE_NOW["CqEmptyLE"], invariants=("Emit", "PropertyHoldsButStaleRead"), extra_const="  D = %d\n" % depth)
+                le=R.CODE_NOW["CqEmptyLE"], atomic="TRUE" if atomic else "FALSE",
+                invariants=("Emit", "PropertyHolds" if atomic else "PropertyHoldsButStaleRead"), extra_const="  D = %d\n" % depth)
     txt = open(cfg).read().replace("INIT Init", "INIT GInit").replace("NEXT Next", "NEXT GNext")
     open(cfg, "w").write(txt)
     res = core.run_tlc("RingGen.tla", cfg, workers=1, simulate=num, depth=depth + 2, seed=seed, timeout=900)
     core.tlc_must_pass(res, "RingGen " + name)
     m = re.search(r"The number of states generated: (\d+)", res.out)
-    chk.transitions += int(m.group(1)) if m else 0
+    generated = int(m.group(1)) if m else 0
     plans, exps, edges = [], [], set()
     for k, hist in enumerate(res.printed("B")):
         init = hist[0]["o"]
-        plan = {"run": k, "ns": ns, "nc": nc, "flags": 0, "h": h, "sq0": init["st"][1], "cq0": init["st"][5], "steps": []}
+        plan = {"ns": ns, "nc": nc, "flags": 0, "h": h, "sq0": init["st"][1], "cq0": init["st"][5], "steps": []}
         exp = []
         prev = json.dumps(init, sort_keys=True)
         for s in hist[1:]:
@@ -112,84 +91,151 @@ def simulate_paths(chk, name, ns, nc, h, num, depth, seed):
             prev = json.dumps(o, sort_keys=True)
         plans.append(plan)
         exps.append(exp)
-    return plans, exps, len(edges)
+    return generated, plans, exps, len(edges)
+
+
+class Batch:
+    """all runs of the real code of this check; judged together at the end"""
+
+    def __init__(self):
+        self.runs = []      # (reset, events)
+        self.plans = []     # plan or None
+        self.source = []    # text
+        self.group = []     # statistics key
+        self.random = []    # None or {"args": [...], "run": k}
+
+    def add(self, runs, plans, source, group, random_args=None):
+        for k, r in enumerate(runs):
+            self.runs.append(r)
+            self.plans.append(plans[k] if plans else None)
+            self.source.append(source)
+            self.group.append(group)
+            self.random.append({"args": random_args, "run": k} if random_args else None)
+
+
+def replay_paths(chk, bindirs, batch, plans, exps, tag, source, stats):
+    """run the plans on the real code (each build) and compare every step with the model (B1)"""
+    for k, p in enumerate(plans):
+        p["run"] = k
+    ppath = os.path.join(chk.work, "plan_%s.ndjson" % tag)
+    core.write_ndjson(ppath, plans)
+    stats.update({"runs": 0, "steps_compared": 0, "divergent_runs": 0, "first_divergence": None})
+    for build, bindir in bindirs.items():
+        runs = R.run_harness(bindir, ["plan", ppath])
+        if len(runs) != len(plans):
+            raise core.ToolError("harness returned %d runs for %d plans" % (len(runs), len(plans)))
+        batch.add(runs, plans, "%s/%s" % (source, build), tag)
+        for k, (reset, evs) in enumerate(runs):
+            stats["runs"] += 1
+            div = None
+            for j, (op, arg, node) in enumerate(exps[k]):
+                d = R.compare_step(op, arg, node, evs[j] if j < len(evs) else None)
+                if d:
+                    div = (j, d)
+                    break
+                stats["steps_compared"] += 1
+            if div:
+                stats["divergent_runs"] += 1
+                if stats["first_divergence"] is None:
+                    stats["first_divergence"] = {"build": build, "run": k, "step": div[0], "diff": div[1], "plan": plans[k]}
+    os.unlink(ppath)
 
 
 def run(tier):
     chk = core.Check("C17", tier, "model_checking")
     quick = tier == "quick"
+    t0 = time.time()
     bindirs = {"debug": core.cargo_build(bins=["ring"]), "release": core.cargo_build(bins=["ring"], release=True)}
     flagsets = FLAG_SETS[tier]
+    tours = QUICK_TOURS if quick else THOROUGH_TOURS
+    sims = [("sim4x8a", 4, 8, 16, True, 100 if quick else 1000, 60), ("sim8x8a", 8, 8, 16, True, 100 if quick else 1000, 80),
+            ("sim8x8", 8, 8, 16, False, 40 if quick else 400, 80)]
+    xfs = [("found_debug", "PropertyHolds", "code as found, overflow-checked build: tail + 1 panics at u32::MAX",
+            dict(ns=2, nc=2, h=8, side="sq", cq="OneStart", wrapping="FALSE", debug="TRUE", le="TRUE", atomic="TRUE")),
+           ("found_release", "PropertyHolds", "code as found: `tail <= head` answers None after the tail wrapped",
+            dict(ns=2, nc=2, h=8, side="cq", sq="OneStart", wrapping="FALSE", debug="FALSE", le="TRUE", atomic="TRUE")),
+           ("stale_read", "PropertyHolds", "slot released before the caller reads through the reference (known finding)",
+            dict(ns=2, nc=2, h=8, side="cq", sq="OneStart", atomic="FALSE"))]
+    for probe, sd in (("ProbeSqFull", "sq"), ("ProbeCqFull", "cq"), ("ProbeHeldAndPost", "cq"), ("ProbeSqWrapped", "sq"), ("ProbeCqPending", "cq")):
+        xfs.append((probe, probe, "reachability of the antecedent",
+                    dict(ns=2, nc=2, h=8, side=sd, sq="AllStarts" if sd == "sq" else "OneStart", cq="AllStarts" if sd == "cq" else "OneStart")))
+    # ---- phase A: all TLC model runs, in parallel (8 JVM worker threads in total at any time)
+    with cf.ThreadPoolExecutor(max_workers=4) as pool:
+        f_tours = {t[0]: pool.submit(mc_and_dump, chk.work, *t, workers=2) for t in tours}
+        f_sims = {s[0]: pool.submit(simulate_paths, chk.work, *s, seed=chk.seed) for s in sims}
+        f_xf = [pool.submit(expect_failure, chk.work, n, inv, what, **kw) for (n, inv, what, kw) in xfs]
+        r_tours = {k: f.result() for k, f in f_tours.items()}
+        r_sims = {k: f.result() for k, f in f_sims.items()}
+        r_xf = [f.result() for f in f_xf]
+    core.log("phase A (TLC: %d exhaustive configs, %d simulations, %d expected failures) %.1fs" % (len(tours), len(sims), len(xfs), time.time() - t0))
+    # ---- phase B: the real code along the tours / behaviours (B1), random runs
+    t1 = time.time()
+    batch = Batch()
     conformance = True
-    tour_stats = {}
+    tour_stats, sim_stats, rnd_stats = {}, {}, {}
     total_edges = 0
-    # ---- 1+2: exhaustive model checking, transition tours replayed into the real code
-    for (name, ns, nc, h, side) in (QUICK_TOURS if quick else THOROUGH_TOURS):
-        cfg, dot, res = mc_and_dump(chk, name, ns, nc, h, side)
-        g = R.Graph(dot)
-        os.unlink(dot)
-        if len(g.nodes) != res.distinct:
-            raise core.ToolError("dump of %s has %d nodes, TLC reported %d states" % (name, len(g.nodes), res.distinct))
-        paths = g.tour(maxlen=160 if ns >= 8 else 120)
+    for (name, ns, nc, h, side, atomic) in tours:
+        res, g, paths = r_tours[name]
+        chk.add_tlc(res)
         consts = {"ns": ns, "nc": nc, "h": h}
         plans, exps = [], []
         for fl in (flagsets if ns <= 4 else flagsets[:1]):
             for (init, steps) in paths:
-                p, e = R.path_to_run(g, consts, len(plans), init, steps, flags=fl)
+                p, e = R.path_to_run(g, consts, 0, init, steps, flags=fl)
                 plans.append(p)
                 exps.append(e)
-        st = replay_paths(chk, bindirs, plans, exps, "tour_" + name, "tour " + name)
-        st.update({"model_states": res.distinct, "model_edges": g.nedges, "paths": len(paths), "edges_covered_by_tour": g.nedges})
+        st = {"model_states": res.distinct, "model_edges": g.nedges, "paths": len(paths), "edges_covered_by_tour": g.nedges}
+        replay_paths(chk, bindirs, batch, plans, exps, "tour_" + name, "tour " + name, st)
         tour_stats[name] = st
         total_edges += g.nedges
-        if st["divergent_runs"]:
-            conformance = False
-        chk.evaluations += st["steps"]
+        conformance = conformance and not st["divergent_runs"]
+        chk.evaluations += st["steps_compared"]
         if len(chk.samples) < 3 and plans:
             p = plans[len(plans) // 3]
             chk.sample({"config": name, "start": [p["sq0"], p["cq0"]], "steps": p["steps"][:14]})
-    # ---- larger configurations: simulated behaviours
-    sims = [("sim4x8", 4, 8, 16, 150 if quick else 1500, 60), ("sim8x8", 8, 8, 16, 150 if quick else 1500, 80)]
-    sim_stats = {}
-    for (name, ns, nc, h, num, depth) in sims:
-        plans, exps, nedges = simulate_paths(chk, name, ns, nc, h, num, depth, chk.seed)
-        st = replay_paths(chk, bindirs, plans, exps, name, "simulated " + name)
-        st["distinct_model_edges_visited"] = nedges
+    for (name, ns, nc, h, atomic, num, depth) in sims:
+        generated, plans, exps, nedges = r_sims[name]
+        chk.transitions += generated
+        st = {"behaviours": len(plans), "distinct_model_edges_visited": nedges}
+        replay_paths(chk, bindirs, batch, plans, exps, name, "simulated " + name, st)
         sim_stats[name] = st
-        if st["divergent_runs"]:
-            conformance = False
-        chk.evaluations += st["steps"]
-    # ---- seeded random long runs on the real code, kernel side acting on the shared words only
-    rnd_stats = {}
+        conformance = conformance and not st["divergent_runs"]
+        chk.evaluations += st["steps_compared"]
+    for res, _ in r_xf:
+        chk.add_tlc(res)
     for build, bindir in bindirs.items():
         nruns, nsteps = (60, 1500) if quick else (400, 5000)
         # a tenth of the runs lets the kernel act between get_next_cqe and the read through its result
-        runs = R.run_harness(bindir, ["random", nruns, nsteps, chk.seed, 100, 3])
-        bad = R.judge(chk, runs, "random_" + build)
-        rejected = R.report(chk, runs, None, bad, "random/%s seed %d" % (build, chk.seed))
+        args = [nruns, nsteps, chk.seed, 100, 3]
+        runs = R.run_harness(bindir, ["random"] + args)
+        batch.add(runs, None, "random/%s seed %d" % (build, chk.seed), "random_" + build, random_args=args)
         wrapped = sum(1 for (reset, evs) in runs if evs and max(evs[-1]["st"]) >= reset["h"] > min(reset["sq0"], reset["cq0"]))
-        nev = sum(len(evs) for _, evs in runs)
-        rnd_stats[build] = {"runs": len(runs), "events": nev, "rejected_runs": len(rejected), "runs_crossing_u32_wrap": wrapped}
-        chk.traces += len(runs) - len(rejected)
-        chk.evaluations += nev
-        if build == "debug":
-            one_long = R.run_harness(bindir, ["random", 2, 20000 if quick else 200000, chk.seed + 7, 0, 3])
-            bad = R.judge(chk, one_long, "long_" + build)
-            rej = R.report(chk, one_long, None, bad, "random-long/%s seed %d" % (build, chk.seed + 7))
-            chk.traces += len(one_long) - len(rej)
-            chk.evaluations += sum(len(evs) for _, evs in one_long)
-            rnd_stats["long"] = {"runs": len(one_long), "events": sum(len(evs) for _, evs in one_long), "rejected_runs": len(rej)}
-    # ---- anti-vacuity: runs TLC must fail
-    xf = []
-    xf.append(expect_failure(chk, "found_debug", "PropertyHolds", "code as found, overflow-checked build: tail + 1 panics at u32::MAX",
-                             ns=2, nc=2, h=8, side="sq", cq="OneStart", wrapping="FALSE", debug="TRUE", le="TRUE", atomic="TRUE"))
-    xf.append(expect_failure(chk, "found_release", "PropertyHolds", "code as found: `tail <= head` answers None after the tail wrapped",
-                             ns=2, nc=2, h=8, side="cq", sq="OneStart", wrapping="FALSE", debug="FALSE", le="TRUE", atomic="TRUE"))
-    xf.append(expect_failure(chk, "stale_read", "PropertyHolds", "slot released before the caller reads through the reference (known finding)",
-                             ns=2, nc=2, h=8, side="cq", sq="OneStart", atomic="FALSE"))
-    for probe, sd in (("ProbeSqFull", "sq"), ("ProbeCqFull", "cq"), ("ProbeHeldAndPost", "cq"), ("ProbeSqWrapped", "sq"), ("ProbeCqPending", "cq")):
-        xf.append(expect_failure(chk, probe, probe, "reachability of the antecedent", ns=2, nc=2, h=8, side=sd,
-                                 sq="AllStarts" if sd == "sq" else "OneStart", cq="AllStarts" if sd == "cq" else "OneStart"))
+        rnd_stats["random_" + build] = {"runs": len(runs), "events": sum(len(evs) for _, evs in runs), "runs_crossing_u32_wrap": wrapped}
+    args = [2, 20000 if quick else 300000, chk.seed + 7, 0, 3]
+    runs = R.run_harness(bindirs["debug"], ["random"] + args)
+    batch.add(runs, None, "random-long/debug seed %d" % (chk.seed + 7), "random_long", random_args=args)
+    rnd_stats["random_long"] = {"runs": len(runs), "events": sum(len(evs) for _, evs in runs)}
+    core.log("phase B (real code: %d runs) %.1fs" % (len(batch.runs), time.time() - t1))
+    # ---- phase C: property-level judgement of every run by TLC (B2)
+    t2 = time.time()
+    bad = R.judge(chk, batch.runs, "all", parallel=4)
+    rejected = R.report(chk, batch, bad)
+    per_group = {}
+    for k, gname in enumerate(batch.group):
+        d = per_group.setdefault(gname, {"runs_judged": 0, "runs_rejected": 0})
+        d["runs_judged"] += 1
+        if k in rejected:
+            d["runs_rejected"] += 1
+        else:
+            chk.traces += 1
+    for name, st in tour_stats.items():
+        st.update(per_group.get("tour_" + name, {}))
+    for name, st in sim_stats.items():
+        st.update(per_group.get(name, {}))
+    for name, st in rnd_stats.items():
+        st.update(per_group.get(name, {}))
+        chk.evaluations += st["events"]
+    core.log("phase C (TLC judge: %d runs, %d rejected) %.1fs" % (len(batch.runs), len(rejected), time.time() - t2))
     # ---- evidence
     chk.nontrivial = total_edges
     chk.rule = ("distinct transitions (edges) of the dumped Ring.tla state graphs, each replayed at least once into the real "
@@ -200,14 +246,15 @@ def run(tier):
     chk.extra["tours"] = tour_stats
     chk.extra["simulated"] = sim_stats
     chk.extra["random"] = rnd_stats
-    chk.extra["expected_failures_confirmed"] = xf
+    chk.extra["expected_failures_confirmed"] = [x for _, x in r_xf]
     chk.extra["exhaustive_scope"] = "state graphs of the listed bounded configurations (ring sizes, H) only; simulated and random runs sample"
     chk.assumptions = [
         "interleaving at call granularity (application call / kernel consume k / kernel post k); a concurrently running kernel thread (SQPOLL) and memory-ordering effects are not explored",
         "model counters 0..2H-1 stand for real 2^32-H+m: exactly one u32 wrap per run in toured configurations; random runs start at 2^32-d (d small), at 0, at u32::MAX or far from the wrap",
         "the simulated kernel consumes through sq_array and decides from the shared head/tail words only, like the real one; kernel overflow handling of a full completion ring is not modelled (it does not post)",
-        "ring refusing a slot is admitted only when all ring-size slots are outstanding (a ring of size n holds n entries)",
+        "a ring refusing a slot is admitted only when all ring-size slots are outstanding (a ring of size n holds n entries)",
         "the return value of flush_submission_queue is compared with the model (B1) but not constrained by the property-level specification",
+        "runs counted in traces_validated_against_impl are those the property-level specification accepts completely; runs that reproduce the known finding are judged to their end but not counted",
     ]
     return chk.finish()
 
@@ -217,16 +264,18 @@ def replay(path):
     chk = core.Check("C17", "quick", "model_checking")
     build = rp["reset"]["build"]
     bindir = core.cargo_build(bins=["ring"], release=(build == "release"))
-    if "steps" in rp["plan"]:
+    if rp.get("plan") and "steps" in rp["plan"]:
         ppath = os.path.join(chk.work, "replay_plan.ndjson")
         core.write_ndjson(ppath, [rp["plan"]])
         runs = R.run_harness(bindir, ["plan", ppath])
     else:
-        print("random run: re-run ./bin/check C17 with VERIF_SEED=%s" % rp["plan"]["random"].get("seed"))
-        return 0
+        r = rp["random"]
+        runs = R.run_harness(bindir, ["random"] + r["args"])
+        runs = [runs[r["run"]]]
     bad = R.judge(chk, runs, "replay")
     for (reset, evs) in runs:
-        for ev in evs:
+        last = max([e for (_, e, _) in bad] or [len(evs)])
+        for ev in evs[max(0, last - 30):last + 1]:
             print(json.dumps(ev))
-    print("verdict:", bad if bad else "accepted by RingTrace")
+    print("verdict:", [(e, why) for (_, e, why) in bad] if bad else "accepted by RingTrace")
     return 1 if bad else 0
